@@ -52,7 +52,12 @@ def main():
             continue
         chk.count()
         chk.distinct((e["op"], json.dumps(e["a"])[:400], e["p"], e["r"]), True)
-        if e["a"] != o["a"]:
+        nin = 2 if e["op"] == "hash_eq" else len(e["a"])       # hash_eq logs (x, y, x == y, hash(x), hash(y)): the last three are outcomes
+        if e["op"] == "hash_eq" and e["a"][2:] != o["a"][2:] and (e["a"][2] != o["a"][2] or e["a"][2]["v"]):
+            # (hash(float nan) is identity-based and differs between processes; nan is equal to nothing)
+            m = {"op": e["op"], "python": o["a"], "gmpy": e["a"]}
+            chk.violation("differs/hash_eq", "python and gmpy(shim) backends disagree on equality or on the hash of equal values", m)
+        if e["a"][:nin] != o["a"][:nin]:
             chk.machinery("operation streams diverged between the two workers at event %d" % e["id"])
         if e["o"] != o["o"]:
             m = {"op": e["op"], "p": e["p"], "r": e["r"], "python": o["o"], "gmpy": e["o"], "args": e["a"]}
